@@ -550,6 +550,8 @@ def run(ctx):
     #           double is modelled bit for bit; the only observable is the verdict).  Rounding.ieee has an unbounded
     #           exponent, so only inputs that are 0 or of magnitude in [1e-30, 1e30] are compared.
     gen_stream(ctx, pu, cases)
+    # ======== "sitecov" input stream - self-contained, implemented at the end of this file; keep this call last ========
+    _sitecov_tail(ctx)
 
 
 GEN_FUNCTIONS = ['points_in_tolerance', 'supersample']
@@ -655,3 +657,78 @@ def gen_stream(ctx, pu, cases):
                      f"cases under Rounding.exact ({bad['exact']} / {bad_ss['exact']} differ), {n['ieee']} double cases under "
                      f"Rounding.ieee, surviving vertex lists compared bit for bit ({bad['ieee']} / {bad_ss['ieee']} differ); "
                      f"{time.time() - t_start:.1f}s")
+
+
+
+# ================================================================================================
+# "sitecov" input stream (harness/sitecov.py, DESIGN 3c): every comparison of the CURRENT source of points_in_tolerance
+# and supersample (which calls it) is driven to lhs == rhs and to either side - separately for the first executions of
+# each site in a call (first / second / third inner vertex, first / second chord ...) - by exact moves on one coordinate
+# of one vertex or on the tolerance (Fractions, tolerance >= 0); the inputs found go through run() itself (exact stream:
+# real code on fresh vertex objects, Lean model, exact-distance oracle, second call, generated-code stream) and are
+# additionally counted under the path 'sitecov'.
+# Self-contained block at the end of the file on purpose (the body of `run` is untouched except for its last line).
+# ================================================================================================
+def _sitecov_plain_list(rng):
+    """a vertex list WITHOUT structure (no collinear runs, repeats, reversals): random rationals, large denominators"""
+    den = rng.choice([97, 1009, 10007])
+    return [(F(rng.randint(-6 * den, 6 * den), den), F(rng.randint(-6 * den, 6 * den), den)) for _ in range(rng.randint(3, 8))]
+
+
+def _sitecov_plain_tol(rng, pts):
+    return F(rng.randint(1, 8 * 1009), 1009)
+
+
+_SC_MAG = 1000
+
+
+def _sitecov_domain(a):
+    pts, tol = a
+    if not (type(tol) in (int, F) and 0 <= tol <= _SC_MAG and len(pts) >= 3):
+        return False
+    # magnitudes of the module's own exact generators (the binary64 reference max_dist_from_n_points, which the exact
+    # stream also consults, is only meaningful there: at 1e38 it is off by more than the whole figure)
+    return all(len(p) == 2 and type(p[0]) in (int, F) and type(p[1]) in (int, F) and abs(p[0]) <= _SC_MAG and abs(p[1]) <= _SC_MAG
+               for p in pts)
+
+
+def _sitecov_rerun(ctx, cases):
+    from . import sitecov
+    payload = {'violations': [{'input': {'stream': 'exact', 'vertices': [[str(F(x)), str(F(y))] for (x, y) in pts],
+                                         'tolerance': str(F(tol))}} for (pts, tol) in reversed(cases)]}
+    sitecov.rerun_patched(ctx, globals(), over={'scale': 0}, replay=payload, patches={'exhaustive': lambda: []})
+
+
+def _sitecov_tail(ctx):
+    import os
+    if getattr(ctx, '_in_sitecov', False) or getattr(ctx, '_only_main', False) or getattr(ctx, 'replay', None) \
+            or os.environ.get('SITECOV_OFF'):
+        return
+    from . import sitecov
+    from plotink import plot_utils as pu
+    rng = ctx.rng
+    only = bool(os.environ.get('SITECOV_ONLY'))
+    seeds = []
+    while len(seeds) < 140:
+        pts = _sitecov_plain_list(rng) if only else gen_list(rng)
+        tol = _sitecov_plain_tol(rng, pts) if only else gen_tol(rng, pts)
+        if 3 <= len(pts) <= 8 and tol >= 0:
+            seeds.append(([tuple(p) for p in pts], F(tol)))
+    mv = sitecov.Moves(domain=_sitecov_domain, lo={(1,): 0}, groups=lambda path, v: 'xy'[path[-1]] if path[0] == 0 else None)
+    sitecov.stream(ctx, 'points_in_tolerance', pu.points_in_tolerance, seeds, rerun=lambda cs: _sitecov_rerun(ctx, cs),
+                   moves=mv, budget=2500, max_inputs=200)
+    sitecov.stream(ctx, 'supersample', pu.supersample, seeds, rerun=lambda cs: _sitecov_rerun(ctx, cs),
+                   moves=mv, budget=2000, max_inputs=200)
+
+
+import os as _os      # noqa: E402
+if _os.environ.get('SITECOV_ONLY'):
+    # EXPERIMENT ONLY (measures what the sitecov stream finds on its own): the exhaustive lattice lists and the
+    # structured generators (collinear runs, repeats, exact-boundary tolerances) are disabled; the five pinned
+    # witnesses written inline in run() and the float stream stay (they cannot be switched off from here)
+    from . import sitecov as _sc
+    _sc.only_mode(globals(), tail=_sitecov_tail,
+                  patches={'exhaustive': lambda: [], 'gen_list': _sitecov_plain_list, 'gen_tol': _sitecov_plain_tol},
+                  note='exhaustive lattice lists and structured generators (collinear runs, repeats, reversals, exact-boundary '
+                       'tolerances) are disabled; exact inputs = unbiased random rational lists + 5 inline pinned witnesses + the '
+                       'sitecov stream')
